@@ -76,6 +76,10 @@ def gen_history(rng, fam):
                             if r > 0 and rng.random() < p_lose],
                'gap': rng.choice((0.0, 0.5, 3600.0)),
                'plan': []}
+        if 0 < r < nruns - 1 and ntask >= 2 and rng.random() < 0.12:
+            # only a part of the job is run this time (the tasks nothing else
+            # in that part depends on stay out: indices >= upto)
+            run['upto'] = rng.randrange(1, ntask)
         if fam.get('crash') and r < nruns - 1 and rng.random() < 0.3:
             run['plan'] = [{'kind': 'crash', 'file': rng.randrange(0, ntask),
                             'byte': rng.choice((0, 1, 20, 60, 10 ** 6))}]
@@ -95,7 +99,9 @@ def gen_history(rng, fam):
 
 
 def present(scn, r):
-    return [i for i, t in enumerate(scn['tasks']) if t['since'] <= r]
+    upto = scn['runs'][r].get('upto')
+    return [i for i, t in enumerate(scn['tasks'])
+            if t['since'] <= r and (upto is None or i < upto)]
 
 
 # --------------------------------------------------------------------------
@@ -618,6 +624,8 @@ def shrink(scn):
                     tsk[key] = [j - 1 if j > k else j for j in tsk[key]
                                 if j != k]
             for run in new['runs']:
+                if run.get('upto') is not None and run['upto'] > k:
+                    run['upto'] = max(1, run['upto'] - 1)
                 del run['outcome'][k]
                 run['lose_env'] = [j - 1 if j > k else j
                                    for j in run['lose_env'] if j != k]
@@ -646,6 +654,10 @@ def shrink(scn):
         if run.get('gap'):
             new = copy.deepcopy(scn)
             new['runs'][r]['gap'] = 0.0
+            yield new
+        if run.get('upto') is not None:
+            new = copy.deepcopy(scn)
+            del new['runs'][r]['upto']
             yield new
         for i in run['lose_env']:
             new = copy.deepcopy(scn)
